@@ -838,6 +838,9 @@ class SimOracle(object):
             already = any(n.kind == "ccancel" and not n.delivered and not n.dead for n in tg.notes)
             if already:
                 waiting = False
+            if waiting and r != 1 and self.detached(tg):
+                self.cls("cond-cancel-of-robbed-waiter")
+                waiting = False
             if waiting and not self.grant_pending(tg) and r != 1:
                 self.viol("C13", "C13/cancel-result", "cancel(%s, p%d) returned %d although it is waiting there" % (c, tg.pid, r))
             if not waiting and r != 0 and not already:
@@ -853,6 +856,9 @@ class SimOracle(object):
             already = any(n.kind == "ccancel" and not n.delivered and not n.dead for n in tg.notes)
             if already:
                 waiting = False
+            if waiting and r != 1 and self.detached(tg):
+                self.cls("cond-remove-of-robbed-waiter")
+                waiting = False
             if waiting and not self.grant_pending(tg) and r != 1:
                 self.viol("C13", "C13/remove-result", "remove(%s, p%d) returned %d although it is waiting there" % (c, tg.pid, r))
             if not waiting and r != 0 and not already:
@@ -863,6 +869,15 @@ class SimOracle(object):
                 self.cls("cond-remove")
         elif name == "csignal":
             self.cls("cond-explicit-signal")
+
+    def detached(self, p):
+        """Has p been robbed by a preemption in this instant without having heard of it yet? The library takes
+        a victim out of every waiting list at the moment of the preemption (its PREEMPTED wake-up follows)."""
+        if any(n.kind in ("respreempt", "poolpreempt") and not n.delivered and not n.dead and n.due == self.time
+               for n in p.notes):
+            return True
+        # a pool preemption earlier in this very event is only known at the snapshot
+        return bool(self.ppre_in_event) and any(v > 0 for v in p.pool.values())
 
     def grant_pending(self, p):
         """Was p told (by a ground-truth record of this instant) that it will be woken?"""
